@@ -64,12 +64,17 @@ def cell_text(rnd, v, integer):
     return t
 
 
+def enc(s):
+    """an injective printable renaming of a text (the model only compares header and cell texts for equality)"""
+    return "".join(ch if (32 <= ord(ch) <= 126 and ch != "<") else "<%x>" % ord(ch) for ch in s)
+
+
 def c_ccell(t):
     try:
         f = c_fnum(float(t))
     except ValueError:
         f = None
-    return "{| c_text := %s; c_float := %s |}" % (cstr(t), copt(f))
+    return "{| c_text := %s; c_float := %s |}" % (cstr(enc(t)), copt(f))
 
 
 def c_ocells(a):
@@ -109,7 +114,8 @@ def main():
     dist = {"tables": 0, "reads": 0, "writes": 0, "outcomes": {}, "int_reads": 0, "with_missing": 0, "blank_lines": 0, "quoted_headers": 0,
             "special_doubles": 0, "roundtrips": 0, "unprintable": 0}
     evaluations = nontrivial = 0
-    names_pool = ["a", "b", "elev", "Slope_pct", "x y", "Area, km2", 'say "hi"', "c3", "N", "tmp.v"]
+    names_pool = ["a", "b", "elev", "Slope_pct", "x y", "Area, km2", 'say "hi"', "c3", "N", "tmp.v",
+                  "Slope\n(deg)", "page\x0cbreak", "a\x0bb\x1cc", "nel\x85sep\u2028x"]      # a two-line column title; characters str.splitlines() splits at
     for ti in range(n):
         ncols, nrows = rnd.randint(1, 5), rnd.randint(0, 8)
         names = rnd.sample(names_pool, ncols)
@@ -235,7 +241,7 @@ def main():
             if o[0] == "err" and o[1].startswith("ESCAPED"):
                 fails.append({"sig": "C17:escaped", "what": "reading let %s escape" % o[1], "replay": replay})
             # ---------- Coq case ----------
-            if rows_term is not None and printable(field):
+            if rows_term is not None:
                 if o[0] == "ok":
                     obs = "(ROk %s)" % c_ocells(o[1])
                 elif o[1] == "EmptyDataFile":
@@ -249,7 +255,7 @@ def main():
                 else:
                     obs = None
                 if obs is not None:
-                    rcases.append("(%s, %s, %s, %s, %s)" % (rows_term, cstr(field), copt(None if missing is None else c_fnum(float(missing))), "TInt" if want_int else "TFloat", obs))
+                    rcases.append("(%s, %s, %s, %s, %s)" % (rows_term, cstr(enc(field)), copt(None if missing is None else c_fnum(float(missing))), "TInt" if want_int else "TFloat", obs))
                     rdescr.append(replay)
                 else:
                     dist["unprintable"] += 1
@@ -317,10 +323,10 @@ def main():
                             ws.append('{| w_cell := OMissing; w_text := "" |}')
                         else:
                             isint = numpy.issubdtype(stacked.dtype, numpy.integer)
-                            ws.append("{| w_cell := %s; w_text := %s |}" % ("(OInt %s)" % cZ(int(x)) if isint else "(OFloat %s)" % c_fnum(float(x)), cstr(str(x))))
+                            ws.append("{| w_cell := %s; w_text := %s |}" % ("(OInt %s)" % cZ(int(x)) if isint else "(OFloat %s)" % c_fnum(float(x)), cstr(enc(str(x)))))
                     colterms.append(clist(ws))
-                if all(printable(names[j]) for j in sel):
-                    wcases.append("(%s, %s, %s)" % (clist([cstr(names[j]) for j in sel]), clist(colterms, ";\n     "), clist([clist([cstr(t) for t in row]) for row in got], ";\n     ")))
+                if True:
+                    wcases.append("(%s, %s, %s)" % (clist([cstr(enc(names[j])) for j in sel]), clist(colterms, ";\n     "), clist([clist([cstr(enc(t)) for t in row]) for row in got], ";\n     ")))
                     wdescr.append(wreplay)
             except ValueError:
                 dist["unprintable"] += 1
